@@ -8,6 +8,7 @@ CONSTANTS MaxFrag, MaxKwFrag, EmitOn
 
 CharFrags == { <<c>> : c \in (DOMAIN Op1) \cup {QUOTE, NL, SP, TAB, CR, 97, 2453, 2527, 2494, UNDER, 48, 55, 2534, 2543,
                                                2407, 64, 0, 2547, 2533} }
+             \cup { <<47, 42>>, <<42, 47>>, <<42, 42>>, <<47, 47>> }        \* comment openers / closers as single fragments
 KwFrags   == { Keyword[k] : k \in KeywordTypes } \cup { Builtin["len"], ReservedExtra }
              \cup { SubSeq(Keyword[k], 1, Len(Keyword[k]) - 1) : k \in {"IF", "ELSE", "NIL"} }
 
